@@ -110,15 +110,13 @@ theorem invDone_stable (s : Sess) (r : ReqId) (o : EOut) : Stable s (invDone s r
       · exact stable_trans (s2 := { s with invs := adel r s.invs }) (o1 := []) ⟨rfl, rfl⟩ (sendWithFallback_stable _ _ _)
     · split
       · exact ⟨rfl, rfl⟩
-      · split
-        · exact ⟨rfl, rfl⟩
-        · exact stable_trans (s2 := { s with invs := adel r s.invs }) (o1 := []) ⟨rfl, rfl⟩ (sendWithFallback_stable _ _ _)
+      · exact stable_trans (s2 := { s with invs := adel r s.invs }) (o1 := []) ⟨rfl, rfl⟩ (sendWithFallback_stable _ _ _)
 
 theorem challengeFail_stable (s : Sess) (lact : HAct) : Stable s (challengeFail s lact).2 (challengeFail s lact).1 := by
   unfold challengeFail
   split
   · exact ⟨rfl, rfl⟩
-  · exact leaveHook_stable s 3 lact
+  · exact stable_trans (s2 := { s with ended := true }) (o1 := []) ⟨rfl, rfl⟩ (leaveHook_stable _ 3 lact)
 
 theorem runCont_stable (s : Sess) (k : Cont) : Stable s (runCont s k).2 (runCont s k).1 := by
   cases k with
@@ -220,13 +218,16 @@ theorem lateProgress_stable (s : Sess) (r : ReqId) (v : Val) : Stable s (latePro
     · exact replySend_stable s _
 
 theorem preSession_stable (s : Sess) (beh : List HAct) (m : InMsg) : Stable s (preSession s beh m).2 (preSession s beh m).1 := by
+  unfold preSession
+  split
+  · exact ⟨rfl, rfl⟩
   cases m with
   | welcome sid =>
-    simp only [preSession]
+    simp only [preSessionOpen]
     exact stable_trans (runHook_stable s .onWelcome 0 _ _ (fun s => ⟨rfl, rfl⟩)) (defer_stable _ _)
-  | abort => exact leaveHook_stable s 2 _
+  | abort => exact stable_trans (s2 := { s with ended := true }) (o1 := []) ⟨rfl, rfl⟩ (leaveHook_stable _ 2 _)
   | challenge =>
-    simp only [preSession]
+    simp only [preSessionOpen]
     exact stable_trans (runHook_stable s .onChallenge 0 _ _ (fun s => ⟨rfl, rfl⟩)) (defer_stable _ _)
   | goodbye => exact ⟨rfl, rfl⟩
   | result _ _ _ => exact ⟨rfl, rfl⟩
@@ -248,7 +249,7 @@ theorem onEstablished_stable (s : Sess) (beh : List HAct) (m : InMsg) : Stable s
     · simp only [onEstablished]
       split
       · exact ⟨rfl, rfl⟩
-      · exact stable_trans (s2 := { s with sessionId := none }) (o1 := []) ⟨rfl, rfl⟩ (leaveHook_stable _ 0 _)
+      · exact stable_trans (s2 := { s with sessionId := none, ended := true }) (o1 := []) ⟨rfl, rfl⟩ (leaveHook_stable _ 0 _)
     · exact onInvocation_stable s beh _ _ _ _
     · exact settleInv_stable s _ _
 
